@@ -409,9 +409,13 @@ express at run time, TypeScript filters the union members.
 def memExclude (decls : List Decl) (a b : Ty) (v : JsVal) : Option Bool :=
   let members := excludeMembers decls a
   let inLower := members.any fun m => memR decls true 40 m v == some true && Spec.mem decls 200 b v == some false
+  -- a member of A that is written, letter for letter, as a member of B is assignable to B whatever it is made of (this
+  -- settles `Set<Tree>` against `Set<Tree>`, whose values the enumeration behind `inclusion` cannot exhaust)
+  let bMembers := (excludeMembers decls b).map fun x => toString (repr x)
   let upper := anyO (fun m =>
     match Spec.mem decls 200 m v with
     | some true =>
+      if bMembers.contains (toString (repr m)) then some false else
       let verdict := inclusion decls m b
       if !verdict.included then some true
       else if verdict.complete then some false else none
